@@ -109,6 +109,8 @@ pub enum IdPred {
     In(Vec<i64>),
     /// lo <= id < hi
     Range(i64, i64),
+    /// predicate on a *mutable* column (phantom-prone class only): `col = k` / `col >= k` / `col < k`
+    Col(&'static str, &'static str, i64),
 }
 
 impl IdPred {
@@ -120,12 +122,30 @@ impl IdPred {
                 v.iter().map(|x| x.to_string()).collect::<Vec<_>>().join(",")
             ),
             IdPred::Range(lo, hi) => format!("id >= {lo} AND id < {hi}"),
+            IdPred::Col(c, op, k) => format!("{c} {op} {k}"),
+        }
+    }
+    /// full evaluation on a row (`v_w` = current values of base columns v and w, None = NULL / dropped)
+    pub fn selects(&self, id: i64, v: Option<i64>, w: Option<i64>) -> bool {
+        match self {
+            IdPred::Col(c, op, k) => {
+                let x = if *c == "v" { v } else { w };
+                match (x, *op) {
+                    (Some(x), "=") => x == *k,
+                    (Some(x), ">=") => x >= *k,
+                    (Some(x), "<") => x < *k,
+                    _ => false, // NULL never satisfies a comparison
+                }
+            }
+            _ => self.matches(id),
         }
     }
     pub fn matches(&self, id: i64) -> bool {
         match self {
             IdPred::In(v) => v.contains(&id),
             IdPred::Range(lo, hi) => id >= *lo && id < *hi,
+            // not decidable from the key alone (see `selects`)
+            IdPred::Col(..) => false,
         }
     }
     pub fn ids_in(&self, universe: impl Iterator<Item = i64>) -> BTreeSet<i64> {
@@ -281,6 +301,18 @@ impl Model {
     fn col(&self, name: &str) -> Option<usize> {
         self.cols.iter().position(|c| c == name)
     }
+    /// ids selected by `pred` on this state
+    pub fn select(&self, pred: &IdPred) -> Vec<i64> {
+        let kv = self.base("v");
+        let kw = self.base("w");
+        self.rows
+            .iter()
+            .filter(|(id, r)| {
+                pred.selects(**id, kv.and_then(|k| r[k].as_i64()), kw.and_then(|k| r[k].as_i64()))
+            })
+            .map(|(id, _)| *id)
+            .collect()
+    }
     /// current position of base column `name` (by field identity, whatever it is called now)
     fn base(&self, name: &str) -> Option<usize> {
         let b = BASE_COLS.iter().position(|c| *c == name)?;
@@ -311,7 +343,7 @@ impl Model {
                 }
             }
             Op::Delete { pred, .. } => {
-                let hit: Vec<i64> = self.rows.keys().copied().filter(|i| pred.matches(*i)).collect();
+                let hit: Vec<i64> = self.select(pred);
                 for id in hit {
                     self.rows.remove(&id);
                     eff.modified.insert(id);
@@ -320,8 +352,9 @@ impl Model {
             Op::Update { pred, add, set_w, .. } => {
                 let kv = self.base("v");
                 let kw = self.base("w");
+                let hit: BTreeSet<i64> = self.select(pred).into_iter().collect();
                 for (id, r) in self.rows.iter_mut() {
-                    if !pred.matches(*id) {
+                    if !hit.contains(id) {
                         continue;
                     }
                     if let Some(k) = kv {
@@ -1235,6 +1268,12 @@ pub type Corrupt<'a> = Option<&'a (dyn Fn(&mut Observed) + Sync)>;
 /// before it; every committed version of the concurrent phase must equal the model's state.
 /// `corrupt` (selftest only) damages the observation of the final version before it reaches the oracle.
 pub async fn check_serial(out: &HistoryOutcome, corrupt: Corrupt<'_>) -> SerialCheck {
+    check_serial_opt(out, corrupt, true).await
+}
+
+/// `replay = false`: only establish who committed what (commit order, structural findings); the
+/// caller judges the contents (phantom-prone class, `c03p`).
+pub async fn check_serial_opt(out: &HistoryOutcome, corrupt: Corrupt<'_>, replay: bool) -> SerialCheck {
     let facts = log_facts(&out.events);
     let mut sc = SerialCheck {
         findings: vec![],
@@ -1359,6 +1398,9 @@ pub async fn check_serial(out: &HistoryOutcome, corrupt: Corrupt<'_>) -> SerialC
         ));
         return sc;
     }
+    if !replay {
+        return sc;
+    }
     // replay + compare every version
     let mut model = out.setup_states[&out.base_version].clone();
     let n_commits = sc.commit_order.len();
@@ -1382,7 +1424,16 @@ pub async fn check_serial(out: &HistoryOutcome, corrupt: Corrupt<'_>) -> SerialC
                 let reason = if e.contains("non-nullable but contains null") {
                     "non-nullable-column-missing-in-fragment"
                 } else if e.contains("split of indexed and non-indexed data") {
-                    "frag-reuse-index-group-split"
+                    // deferred-remap rewrite group partly covered by an index that was built
+                    // concurrently (the planner could not know about it) vs. anything else
+                    let concurrent_index = out.results.iter().any(|r| {
+                        matches!(r.result, Ok(Some(_))) && matches!(r.op, Op::CreateIndex { .. } | Op::OptimizeIndices)
+                    });
+                    if concurrent_index && !out.spec.stable_row_ids {
+                        "rewrite-group-partly-covered-by-concurrently-built-index"
+                    } else {
+                        "frag-reuse-index-group-split"
+                    }
                 } else if e.contains("PANIC") {
                     "other-panic"
                 } else {
